@@ -97,8 +97,8 @@ def judge_state(ctx, tree, now, case):
     os.symlink(root, link)
     nforms = 0
     for f in sorted(recorded):
-        if f not in med:
-            continue   # -sf needs an existing path
+        if f not in med or med[f] is DIR:
+            continue   # -sf needs an existing path (and a file: the name may belong to a folder by now)
         hr = ref.history_for_path(roots, f)
         rel = ref.rel_to(hr, f)
         want = []
@@ -158,6 +158,23 @@ def expand(ctx, item):
     return out
 
 
+# a small alphabet of its own: names that are not in Unicode NFC form, names with blanks at the ends (how a file is NAMED must
+# not matter to the look-up)
+UNI = {"e\u0301.txt": b"decomposed", "\u00e9.txt": b"composed", "u\u0308 dir": DIR, "u\u0308 dir/f\u0327.txt": b"in nfd dir",
+       " lead.txt": b"leading blank", "trail.txt ": b"trailing blank", "\u212b.bin": b"angstrom sign"}
+
+
+def enabled(tree, meta):
+    out = []
+    if meta["cmds"] < meta["max_cmds"]:
+        m2 = dict(meta, cmds=meta["cmds"] + 1)
+        out.append((ops.create("", ["xxh64"]), m2, True))
+        out.append((ops.create("", ["md5", "c4"]), m2, True))
+        out.append((ops.create("u\u0308 dir", ["md5"]), m2, True))
+        out.append((ops.create("", ["sha1"], sf=["e\u0301.txt", "u\u0308 dir/f\u0327.txt"]), m2, True))
+    return out
+
+
 def lab(op):
     return op[0] if op[0] == "info-all" else ops.label(op)
 
@@ -172,6 +189,7 @@ def main(tier, seed):
     # a long history (generation numbers pass 9 -> 10) in a root and a nested history
     longbase = ops.build(eng.local_ctx(), dict(c06.BASE), [ops.create("d", ["md5"])])
     inits.append(("c06-long", longbase, dict(alpha="c06", cmds=0, edits=0, max_cmds=11 if q else 13, max_edits=0, long=True)))
+    inits.append(("unicode-names", dict(UNI), dict(alpha="c19", cmds=0, max_cmds=2 if q else 3)))
     tot = {"states": 0, "transitions": 0}
     runs = []
     for name, tree, meta in inits:
